@@ -544,7 +544,26 @@ class Engine:
 
     # ------------------------------------------------------------ loops
     def loop_contract(self, frame, st):
-        k = frame.loop_ordinal
+        # ordinals are static: position of the loop statement in source order within the function
+        # (nested defs excluded), so a loop keeps its number on every path
+        table = getattr(frame, "loop_table", None)
+        if table is None:
+            table = frame.loop_table = {}
+            node = getattr(frame.fsrc, "node", None)
+            if node is not None:
+                n = 0
+                stack = list(reversed(node.body))
+                while stack:
+                    x = stack.pop()
+                    if isinstance(x, (ast.For, ast.While)):
+                        table[id(x)] = n
+                        n += 1
+                    kids = [c for c in ast.iter_child_nodes(x)
+                            if not isinstance(c, (ast.FunctionDef, ast.AsyncFunctionDef, ast.Lambda, ast.ClassDef))]
+                    stack.extend(reversed(kids))
+        k = table.get(id(st))
+        if k is None:
+            k = frame.loop_ordinal
         frame.loop_ordinal += 1
         lc = None
         if frame.contract is not None:
@@ -622,7 +641,8 @@ class Engine:
         if st.orelse:
             raise Unsupported("for/else with invariant")
         kname = lc.get("index", "_k")
-        inv = lc.get("invariant", {})
+        inv = dict(lc.get("invariant", {}))
+        inv.update(lc.get("invariant_by_case", {}).get(self.case_name, {}))
         text = "for#%d" % ordinal
         # 1. establish at k = 0
         self.check_invariant(frame, lc, inv, z3.IntVal(0), seq, "init", text)
@@ -658,7 +678,8 @@ class Engine:
             raise Unsupported("while loop #%d of %s has no invariant in its contract" % (ordinal, frame.fsrc.qualname))
         if st.orelse:
             raise Unsupported("while/else")
-        inv = lc.get("invariant", {})
+        inv = dict(lc.get("invariant", {}))
+        inv.update(lc.get("invariant_by_case", {}).get(self.case_name, {}))
         text = "while#%d" % ordinal
         self.check_invariant(frame, lc, inv, None, None, "init", text)
         pre_env = dict(frame.env)
